@@ -672,7 +672,7 @@ func SplitAnnexB(s []byte) [][]byte {
 func WriteAnnexB(units [][]byte, sc []int, tz int) []byte {
 	var b []byte
 	for i, u := range units {
-		if sc[i] == 4 {
+		for k := 3; k < sc[i]; k++ {
 			b = append(b, 0)
 		}
 		b = append(b, 0, 0, 1)
